@@ -37,3 +37,97 @@ pub(crate) fn fresh_world() {
     }
     snapshot();
 }
+
+/// ∀-style check helper: arena byte `i` currently holds the content it had at the most recent
+/// flush that covered it (i.e. a covering flush happened after the last write to it).
+pub(crate) fn flushed_with_final_content(i: usize) -> bool {
+    unsafe {
+        let a = os::mem_base() + i;
+        let mut ok = false;
+        let mut k = 0;
+        while k < os::MAXFLUSH {
+            if k < os::N_FLUSH && os::FLUSH_START[k] <= a && a < os::FLUSH_END[k] {
+                let d = a - os::FLUSH_START[k];
+                // later flushes override earlier ones
+                ok = d < os::SNAP && os::FLUSH_SNAP[k][d] == os::MEM[i];
+            }
+            k += 1;
+        }
+        ok
+    }
+}
+
+pub(crate) fn in_range(i: usize, start: usize, len: usize) -> bool {
+    i >= start && i < start + len
+}
+
+/// Contract of `allocate_jit_memory(src, size)` as proved by Verus on the real loop (C11.alloc):
+/// either the clean-failure panic with nothing left mapped, or a fresh live mapping of `size`
+/// bytes within range. Used as a `#[kani::stub]` where a caller is checked against the contract
+/// instead of the body (the body's loop has up to 65 537 iterations).
+pub(crate) fn allocate_jit_memory_contract(_src: &FuncPtrInternal, code_size: usize) -> *mut u8 {
+    unsafe {
+        let p = libc::mmap(
+            std::ptr::null_mut(),
+            code_size,
+            libc::PROT_READ | libc::PROT_WRITE | libc::PROT_EXEC,
+            libc::MAP_ANONYMOUS | libc::MAP_PRIVATE,
+            -1,
+            0,
+        );
+        if p == libc::MAP_FAILED {
+            crate::verif_rt::on_panic(K_NOMEM, 0);
+        }
+        p as *mut u8
+    }
+}
+
+// ------------------------------------------------------------------------------------------------
+// Obligations on the functions of common.rs itself.
+
+fn page_cover_body(off: usize, len: usize, ps: usize) {
+    unsafe {
+        os::PAGE_SIZE = ps;
+    }
+    let base = os::mem_base();
+    // CBMC/Kani addresses are (object id << 48) + offset, so the arena base is page aligned
+    kani::assume(base % ps == 0);
+    let patch: [u8; 16] = kani::any();
+    unsafe {
+        patch_function(os::mem_ptr(off), &patch[..len]);
+        assert!(os::N_MPROTECT >= 1 && os::EV_KIND[0] == 1, "OBL:C01.page.protect-first: the pages are made writable before anything is written");
+        assert!(os::writable(base + off, len), "OBL:C01.page.cover: every byte of the patch lies in pages made R|W|X by a successful mprotect");
+        let k = os::N_MPROTECT - 1;
+        assert!(os::PROT_START[k] % ps == 0 && os::PROT_LEN[k] % ps == 0 && os::PROT_LEN[k] > 0, "OBL:C01.page.aligned: mprotect is called on whole pages");
+        let j: usize = kani::any();
+        kani::assume(j < len);
+        assert!(os::MEM[off + j] == patch[j], "OBL:C01.page.written: the patch bytes are in place");
+    }
+}
+
+/// C01.page.cover — `patch_function(func, patch)` for a function entry at ANY offset of the arena,
+/// any patch length 1..=16 and every page size in {16, 32, 4096, 16384, 65536} (the code is
+/// parametric in the page size it reads from sysconf; with 16- and 32-byte pages every way of
+/// straddling one or two page boundaries occurs inside the 64-byte arena): every written byte lies
+/// in pages that a successful mprotect made R|W|X before the write.
+#[kani::proof]
+#[kani::unwind(26)]
+#[kani::stub(crate::injector_core::linuxapi::__clear_cache, os::flush)]
+fn c01_page_cover() {
+    let off: usize = kani::any();
+    let len: usize = kani::any();
+    let sel: u8 = kani::any();
+    let ps: usize = match sel {
+        0 => 16,
+        1 => 32,
+        2 => 4096,
+        3 => 16384,
+        _ => 65536,
+    };
+    kani::assume(len >= 1 && len <= 16);
+    kani::assume(off <= os::ARENA - 16);
+    page_cover_body(off, len, ps);
+    kani::cover!(ps == 16 && off == 13 && len == 5, "COVER:straddles");
+    kani::cover!(ps == 16 && off % 16 == 15 && len == 16, "COVER:straddles-two");
+    kani::cover!(true, "COVER:end");
+}
